@@ -350,13 +350,11 @@ Definition spec_payload (pk : Z) : payload := payload_of pk.
    14 Is* 15 Call.
    25 object with a throwing getter 26 array with a throwing index getter 27 Error whose message getter throws
    28 object with a quiet getter.
-   Still open: Object.Set on a bridged nil map (class 7); Value.Export runs getters outside catchPanic, so a
-   getter that throws escapes it (class 16, C02-export-unprotected).  ToInteger/ToFloat/IsNaN on a UTF-16
+   Still open: Object.Set on a bridged nil map (class 7).  Value.Export is under catchPanic since e439569
+   (C02-export-unprotected): kinds 25-27 are its former witnesses, kept as regression cases - no accessor may panic.  ToInteger/ToFloat/IsNaN on a UTF-16
    backed string (06c26f0) and IsNaN outside catchPanic (239ed11) are repaired: no accessor may panic there. *)
 Definition acc_known (vk acc : Z) : option Z :=
-  if (vk =? 16) && (acc =? 11) then Some 7
-  else if ((vk =? 25) || (vk =? 26) || (vk =? 27)) && (acc =? 7) then Some 16
-  else None.
+  if (vk =? 16) && (acc =? 11) then Some 7 else None.
 
 Definition verdict_acc (vk acc obs : Z) : Z * Z :=
   match acc_known vk acc with
